@@ -57,13 +57,15 @@ pub struct Case {
     pub inputs: Vec<String>,
     pub lex: (bool, bool), // ms, lm
     pub fancy: bool,
+    /// replay: the table type and whitespace setting recorded with the case (None = choose as in a normal run)
+    pub fixed: Option<(Option<u8>, bool)>,
 }
 
 pub fn emit_case(krate: &mut Crate, case: &Case, rep: &mut Rep) {
     // every generated parser also meets hostile text (multi-byte, control characters, long words, cut literals): the
     // generated recognisers and lexer definition must answer like route D, in particular never panic
-    let mut case = Case { origin: case.origin.clone(), text: case.text.clone(), inputs: case.inputs.clone(), lex: case.lex, fancy: case.fancy };
-    {
+    let mut case = Case { origin: case.origin.clone(), text: case.text.clone(), inputs: case.inputs.clone(), lex: case.lex, fancy: case.fancy, fixed: case.fixed };
+    if case.fixed.is_none() {
         let mut r = crate::rng::Rng::new(crate::ag::fnv(&case.text));
         let lits = crate::c15::lits_of_dump_text(&case.text);
         let mut noise = crate::c15::inputs_for(None, &lits, &mut r, 8);
@@ -72,8 +74,11 @@ pub fn emit_case(krate: &mut Crate, case: &Case, rep: &mut Rep) {
         case.inputs.extend(noise);
     }
     // a quarter of the cases with skip_ws(false): whitespace is significant, also at the very end (STOP)
-    let no_skip = crate::ag::fnv(&case.text) % 4 == 1 && !case.text.contains("Layout");
-    if no_skip {
+    let no_skip = match case.fixed {
+        Some((_, skip)) => !skip,
+        None => crate::ag::fnv(&case.text) % 4 == 1 && !case.text.contains("Layout"),
+    };
+    if no_skip && case.fixed.is_none() {
         let tight: Vec<String> = case.inputs.iter().take(16).map(|i| i.split_whitespace().collect::<String>()).filter(|i| !i.is_empty()).collect();
         for t in tight {
             case.inputs.push(format!("{} ", t));
@@ -89,10 +94,13 @@ pub fn emit_case(krate: &mut Crate, case: &Case, rep: &mut Rep) {
             // LR: prefer shifts so that more grammars are deterministic; GLR: defaults
             // table type: the default of the algorithm, or (a third of the cases each) an explicit one - also LALR_RN
             // under LR and plain LALR under GLR, which are selectable and compute tables the source has to encode too
-            let tsel = (crate::ag::fnv(&case.text) as usize + glr as usize) % 3;
-            let table = match tsel {
-                0 => None,
-                1 => Some(if glr { 0u8 } else { 2u8 }),
+            // (the literature corpus always with the algorithm's default table: its right-nulled shapes are there on purpose)
+            let generated = ["bnf", "lex", "layout", "big", "fancy"].contains(&case.origin.as_str());
+            let tsel = if generated { (crate::ag::fnv(&case.text) as usize + glr as usize) % 3 } else { 0 };
+            let table = match (case.fixed, tsel) {
+                (Some((t, _)), _) => t,
+                (None, 0) => None,
+                (None, 1) => Some(if glr { 0u8 } else { 2u8 }),
                 _ => Some(if glr { 2u8 } else { 0u8 }),
             };
             let spec = SetSpec { glr, gen_table, table, ps: if glr { None } else { Some(true) }, ms: case.lex.0, lm: case.lex.1, fancy: case.fancy, skip_ws: !no_skip, ..Default::default() };
@@ -142,13 +150,13 @@ pub fn gen_case(rng: &mut Rng, i: usize) -> Option<Case> {
                     }
                 }
             }
-            Some(Case { origin: "bnf".into(), text: g.text(), inputs, lex: (true, true), fancy: false })
+            Some(Case { origin: "bnf".into(), text: g.text(), inputs, lex: (true, true), fancy: false, fixed: None })
         }
         2 => {
             let lg = gen_lex(rng);
             let mut inputs = all_inputs(&alphabet(&lg), 3);
             inputs.truncate(120);
-            Some(Case { origin: "lex".into(), text: lg.text(), inputs, lex: (rng.chance(0.5), rng.chance(0.5)), fancy: false })
+            Some(Case { origin: "lex".into(), text: lg.text(), inputs, lex: (rng.chance(0.5), rng.chance(0.5)), fancy: false, fixed: None })
         }
         _ => {
             let g = gen_bnf(rng, &BnfOpts::default());
@@ -168,7 +176,7 @@ pub fn gen_case(rng: &mut Rng, i: usize) -> Option<Case> {
                 }
             }
             inputs.push("/* x".into());
-            Some(Case { origin: "layout".into(), text: grammar_text(&g, fam), inputs, lex: (true, true), fancy: false })
+            Some(Case { origin: "layout".into(), text: grammar_text(&g, fam), inputs, lex: (true, true), fancy: false, fixed: None })
         }
     }
 }
@@ -187,6 +195,7 @@ pub fn main(a: &Args) {
             inputs: info["inputs"].as_array().unwrap().iter().map(|x| x.as_str().unwrap().to_string()).collect(),
             lex: (info["settings"]["ms"].as_bool().unwrap_or(true), info["settings"]["lm"].as_bool().unwrap_or(true)),
             fancy: info["settings"]["fancy"].as_bool().unwrap_or(false),
+            fixed: Some((info["settings"]["table"].as_u64().map(|t| t as u8), info["settings"]["skip_ws"].as_bool().unwrap_or(true))),
         };
         emit_case(&mut krate, &case, &mut rep);
     } else {
@@ -197,7 +206,7 @@ pub fn main(a: &Args) {
                 for w in all_strings(g.terms.len(), len_for(g.terms.len(), 3, 40)) {
                     inputs.push(render_plain(&g, &w).0);
                 }
-                emit_case(&mut krate, &Case { origin: name, text: g.text(), inputs, lex: (true, true), fancy: false }, &mut rep);
+                emit_case(&mut krate, &Case { origin: name, text: g.text(), inputs, lex: (true, true), fancy: false, fixed: None }, &mut rep);
             }
         }
         if a.shard == 3 {
@@ -205,7 +214,7 @@ pub fn main(a: &Args) {
             // (backtrack limit): "not recognised" like any other failure, in the generated recogniser as in route D
             let text = "S: Item+;\nItem: Key Colon Num | Word | Twice;\nterminals\nKey: /(?:\\w+[.-]?)+(?=:)/;\nColon: ':';\nNum: /\\d+/;\nTwice: /(\\w)\\1!/;\nWord: /[a-z]+/;\n";
             let inputs: Vec<String> = ["ab: 1", "ab cd", "x.y-z: 7 q", "aa! b", "aaaaaaaaaaaaaaaaaaaaaaaaaaaaaaaaaaaaaaaaaaaa", "a.b.c.d.e.f.g.h.i.j.k.l.m.n.o.p.q.r.s.t.u.v.w.x.y.z.a.b.c.d q", "ab:", ": 1", ""].iter().map(|x| x.to_string()).collect();
-            emit_case(&mut krate, &Case { origin: "fancy".into(), text: text.into(), inputs, lex: (true, true), fancy: true }, &mut rep);
+            emit_case(&mut krate, &Case { origin: "fancy".into(), text: text.into(), inputs, lex: (true, true), fancy: true, fixed: None }, &mut rep);
             rep.count("fancy_regex_cases", 1);
         }
         if a.shard == 1 {
@@ -231,7 +240,7 @@ pub fn main(a: &Args) {
                     }
                 }
                 let before = krate.modules.len();
-                emit_case(&mut krate, &Case { origin: "big".into(), text: g.text(), inputs, lex: (true, true), fancy: false }, &mut rep);
+                emit_case(&mut krate, &Case { origin: "big".into(), text: g.text(), inputs, lex: (true, true), fancy: false, fixed: None }, &mut rep);
                 if krate.modules.len() > before {
                     rep.count("big_family_cases", 1);
                     made_big += 1;
